@@ -1,5 +1,6 @@
 import Ldlm.Proofs.Table
 import Ldlm.Proofs.CoreMain
+import Ldlm.Proofs.CoreGc
 /-!
 C13 — Garbage collection of idle locks is invisible to clients.
 
@@ -20,6 +21,17 @@ Sequential (M2):
 * `gc_only_effect_is_recreation` — after a GC pass every lock that still has a record has it unchanged;
                             a removed record was unheld and idle longer than min-idle: the next
                             creating request may give it another size.
+Simulation (M2, every history, every GC interval / minimum idle time, explicit passes anywhere):
+* `gc_step_invisible`     — lock step of the server and the same server whose collector deletes nothing
+                            (`noGc`): related states (`G`: equal up to records that have no key and no
+                            waiter) give the same answer, events and tie flag to every operation and stay
+                            related — or the request re-creates a collected lock with another size (the
+                            server without GC answers size mismatch, the server with GC grants): exactly
+                            the one effect C13 allows.  The error CODE of a failing Unlock may differ (K11).
+* `gc_pass_invisible`     — a collection pass (tick or explicit) keeps the two servers related.
+* `gc_invisible_history`  — along every history in which the server without GC never answers size
+                            mismatch, the server with GC gives the same answers, request by request.
+* `gc_allows_recreation`  — the excluded case is real (witness): after a pass the name is free for another size.
 Known finding K11 (stated, not hidden): a FAILING Unlock with a stale key answers InvalidLockKey
 while the idle record exists and LockDoesNotExist once it is collected — `gc_changes_failing_unlock_code`.
 -/
@@ -75,6 +87,45 @@ def pre : List Op := [.connect s1, .tryLock (some s1) [97] none none, .unlock (s
 theorem gc_changes_failing_unlock_code :
     (step flatOps cfg0 (Core.run flatOps cfg0 pre) (.unlock (some s1) [97] (cfg0.genKey 0))).2.err = some .badKey ∧
     (step flatOps cfg0 (Core.run flatOps cfg0 (pre ++ [.gc 1])) (.unlock (some s1) [97] (cfg0.genKey 0))).2.err = some .noLock := by
+  decide
+
+/-! ### GC is invisible: simulation against the server whose collector deletes nothing -/
+
+theorem gc_step_invisible (ho : o.Lawful) {s s' : Core.St M} (h : G o s s') (hr : RecInv o s) (op : Op)
+    (hop : ∀ mi, op ≠ .gc mi) :
+    (G o (step o c s op).1 (step (noGc o) c s' op).1 ∧ REq (step o c s op).2 (step (noGc o) c s' op).2) ∨
+    (RecreatesOp o s s' op ∧ (step (noGc o) c s' op).2.err = some .sizeMismatch ∧ (step o c s op).2.ok = true) :=
+  step_rel ho h hr op hop
+
+theorem gc_pass_invisible (ho : o.Lawful) {s s' : Core.St M} (h : G o s s') (hr : RecInv o s) (mi : Nat) :
+    G o (gcPass o s mi) s' :=
+  gcPass_G ho h hr mi
+
+theorem gc_invisible_history (ho : o.Lawful) (ops : List Op)
+    (hno : ∀ r ∈ resps (noGc o) c (init (noGc o) c) (ops.filter (fun op => !isGcOp op)), r.err ≠ some .sizeMismatch) :
+    RespsEq (respsSkip o c (init o c) ops)
+      (resps (noGc o) c (init (noGc o) c) (ops.filter (fun op => !isGcOp op))) :=
+  gc_invisible ho ops hno
+
+/-- the relation's premises are met by every reachable state of the server with GC -/
+theorem reachable_recInv (ho : o.Lawful) (ops : List Op) : RecInv o (Core.run o c ops) :=
+  (recInv_blocks (c := c) ho).run (fun s h => recInv_restart ho s h) (recInv_init ho) ops
+
+/-- the excluded case is real: after a pass the idle name can be created with another size -/
+theorem gc_allows_recreation :
+    (step (noGc flatOps) cfg0 (Core.run (noGc flatOps) cfg0 pre) (.tryLock (some s1) [97] (some 2) none)).2.err = some .sizeMismatch ∧
+    (step flatOps cfg0 (Core.run flatOps cfg0 (pre ++ [.gc 1])) (.tryLock (some s1) [97] (some 2) none)).2.ok = true := by
+  decide
+
+/-- non-vacuity: a history with a GC pass between a release and a re-acquisition with the same size;
+the hypothesis of `gc_invisible_history` holds and the answers are those of the server without GC -/
+def hist2 : List Op := pre ++ [.gc 1, .tryLock (some s1) [97] none none, .unlock (some s1) [97] (cfg0.genKey 2)]
+
+example : ∀ r ∈ resps (noGc flatOps) cfg0 (init (noGc flatOps) cfg0) (hist2.filter (fun op => !isGcOp op)),
+    r.err ≠ some .sizeMismatch := by decide
+
+example : (respsSkip flatOps cfg0 (init flatOps cfg0) hist2).map (fun r => (r.ok, r.err)) =
+    (resps (noGc flatOps) cfg0 (init (noGc flatOps) cfg0) (hist2.filter (fun op => !isGcOp op))).map (fun r => (r.ok, r.err)) := by
   decide
 
 end Ldlm.Props.C13
